@@ -42,7 +42,9 @@ fn gen_content(rng: &mut Rng) -> Content {
             };
             // identical user handles across RPs
             let ctr = if rng.bool() { Some(rng.below(100) as u32) } else { None };
-            let (pk, _, _) = seeded_passkey(rng, rp, &id, Some(b"same-user-handle"), ctr, None);
+            // (a third are non-discoverable credentials: no user handle is stored with them)
+            let uh: Option<&[u8]> = if rng.chance(1, 3) { None } else { Some(b"same-user-handle") };
+            let (pk, _, _) = seeded_passkey(rng, rp, &id, uh, ctr, None);
             creds.push(pk);
         }
     }
@@ -406,7 +408,39 @@ fn part_c(rep: &mut Report, seed: u64, index: u64) {
         rep.nontrivial(fnv_str(&format!("c|{is_get}|{class}|rp{}|n{}|h{}", RPS.iter().position(|r| *r == rp).unwrap(), snapshot.len().min(8),
             list.as_ref().map_or(0, |l| l.iter().filter(|d| d.transports.as_ref().map_or(false, |t| !t.is_empty())).count().min(2)))));
         if is_get {
-            let opts = crate::util::request_options(Some(rp), &[7u8; 16], list, passkey_types::webauthn::UserVerificationRequirement::Discouraged);
+            let mut opts = crate::util::request_options(Some(rp), &[7u8; 16], list, passkey_types::webauthn::UserVerificationRequirement::Discouraged);
+            // a quarter of the requests arrive as JSON; half of those name the allow list `allowList`, the
+            // member name older platform services write (the type documents it as accepted)
+            if rng.chance(1, 4) {
+                if let Ok(mut v) = serde_json::to_value(&opts) {
+                    fn drop_nulls(v: &mut Value) {
+                        match v {
+                            Value::Object(m) => {
+                                m.retain(|_, x| !x.is_null());
+                                m.values_mut().for_each(drop_nulls);
+                            }
+                            Value::Array(a) => a.iter_mut().for_each(drop_nulls),
+                            _ => {}
+                        }
+                    }
+                    drop_nulls(&mut v);
+                    let legacy = rng.bool();
+                    if legacy {
+                        if let Some(m) = v["publicKey"].as_object_mut() {
+                            if let Some(l) = m.remove("allowCredentials") {
+                                m.insert("allowList".into(), l);
+                            }
+                        }
+                    }
+                    match serde_json::from_value::<passkey_types::webauthn::CredentialRequestOptions>(v) {
+                        Ok(parsed) => {
+                            rep.count(if legacy { "c_requests_through_json_with_the_legacy_list_name" } else { "c_requests_through_json" });
+                            opts = parsed;
+                        }
+                        Err(e) => rep.violate("c: request options do not parse from their own JSON", e.to_string(), case.clone()),
+                    }
+                }
+            }
             let own_first = snapshot.iter().find(|c| c.rp_id == rp).map(|c| c.id.clone());
             match catch(|| block_on(client.authenticate(&origin, opts, DefaultClientData))) {
                 Err((sig, d)) => rep.violate(&format!("c: authenticate {sig}"), d, case),
